@@ -14,6 +14,12 @@
 (*   own (different inputs, reset of one of them) for CloneFuel further    *)
 (*   steps with inputs KC.  Every invariant is stated for every instance;  *)
 (*   CloneSame / Independent are the clauses about the copy itself.        *)
+(* Fmt: rendering a detector with {:?} (StepFmt) is an operation that      *)
+(*   changes no instance.                                                  *)
+(* Scale: the unit of the inputs is arbitrary -- RmsCore is homogeneous    *)
+(*   (squares and sums scale by 4^sc, the clauses are unit-free) --, so    *)
+(*   the exploration stands for every value region k/4 * 2^sc; ScaleStim   *)
+(*   places the histories in the regions of the float formats (cfg.sc).    *)
 (* Also writes the stimuli for the Rust harnesses (IOEnv.STIM_OUT).        *)
 (***************************************************************************)
 EXTENDS Naturals, Integers, Sequences, FiniteSets, TLC, Json, IOUtils, SequencesExt
@@ -81,9 +87,13 @@ StepReset   == CanStep /\ \E i \in 1..Len(ins) :
 StepClone   == /\ Len(ins) = 1 /\ CloneFuel > 0 /\ UNCHANGED << n, fuel >>
                /\ ins' = Append(ins, Inst(L1Clone(ins[1].win), C1Clone(ins[1].c1), L2Clone(ins[1].l2)))
                /\ last' = [op |-> "clone", i |-> 1, out2 |-> << >>, out1 |-> << >>, others |-> << >>]
+\* {:?} of an instance (Debug for Rms): an operation of the object that changes nothing
+StepFmt     == CanStep /\ \E i \in 1..Len(ins) :
+                 /\ UNCHANGED << n, ins >> /\ Burn
+                 /\ last' = [op |-> "fmt", i |-> i, out2 |-> << >>, out1 |-> << >>, others |-> Others(i)]
 \* no bound on the history length is needed: on the exact domain the reachable state set is finite
 \* (window contents x ring rotation), so TLC covers histories of EVERY length (in particular 3N+2)
-Next == StepNext \/ StepNextSq \/ StepSig \/ StepSigSq \/ StepCurrent \/ StepReset \/ StepClone
+Next == StepNext \/ StepNextSq \/ StepSig \/ StepSigSq \/ StepCurrent \/ StepReset \/ StepClone \/ StepFmt
 Spec == Init /\ [][Next]_vars
 
 ---------------------------------------------------------------------------
@@ -152,7 +162,7 @@ ResetS(nn, f, ch, via, st, src) ==
 Feeds(e, ks, ch) == [i \in 1..Len(ks) |-> Ev(e, ks[i], ch)]
 \* continuations after the window has been established; k (derived from the window) picks the values
 Tails(ch, k) ==
-  { << Ev("next_squared", k, ch), Ev0("current"), Ev("next", 0 - k, ch) >>,
+  { << Ev("next_squared", k, ch), Ev0("current"), Ev0("rms_fmt"), Ev("next", 0 - k, ch) >>,
     << Ev0("rms_reset"), Ev0("current"), Ev("next", k, ch), Ev("next_squared", Rot(k, 3), ch), Ev0("current") >> }
 SigTails(ch, k) == { << Ev("sig_next", k, ch), Ev("sig_next_squared", 0 - k, ch), Ev("sig_next", Rot(k, 2), ch) >> }
 WSum(w) == LET S[i \in 0..Len(w)] == IF i = 0 THEN 0 ELSE S[i - 1] + w[i] + 2 IN S[Len(w)]
@@ -180,10 +190,10 @@ BaseStim ==
 CloneTail(ch, k, a, b) ==      \* a = the instance that is reset, b = the other one
   << EvI("next", b, k, ch), EvI("next_squared", a, 0 - k, ch), Ev0I("current", b), Ev0I("current", a),
      Ev0I("rms_reset", a), EvI("next", a, Rot(k, 2), ch), Ev0I("current", b), EvI("next_squared", b, Rot(k, 3), ch),
-     Ev0I("rms_move", b), Ev0I("current", b), Ev0I("current", a) >>
+     Ev0I("rms_fmt", b), Ev0I("rms_move", b), Ev0I("current", b), Ev0I("rms_fmt", a), Ev0I("current", a) >>
 SigCloneTail(ch, k, a, b) ==
   << EvI("sig_next", b, k, ch), EvI("sig_next_squared", a, 0 - k, ch), EvI("sig_next", b, Rot(k, 2), ch),
-     Ev0I("sig_move", a), Ev0I("sig_parts", a), Ev0I("current", a), EvI("sig_next_squared", b, Rot(k, 3), ch),
+     Ev0I("sig_move", a), Ev0I("sig_parts", a), Ev0I("rms_fmt", a), Ev0I("current", a), EvI("sig_next_squared", b, Rot(k, 3), ch),
      Ev0I("rms_reset", a), EvI("next", a, k, ch), Clone("rms_clone", a, 2), EvI("next", 2, k, ch), EvI("sig_next", b, 0 - k, ch) >>
 CloneStim ==
   UNION { UNION { UNION {
@@ -198,11 +208,29 @@ CloneStim ==
            << ResetS(nn, f, ch, "signal", Stores[((h \div 24) % 2) + 1], "gen") >> \o Feeds("sig_next", pre, ch)
              \o << Clone("sig_clone", 0, 1) >> \o SigCloneTail(ch, kk, a, 1 - a) }
     : m \in 0..(2 * nn + 1) } : k0 \in K } : nn \in 1..MaxWin }
-Stimuli == BaseStim \cup CloneStim
+\* Value regions of the float formats: the long history of every n placed at scale 2^sc (the driver multiplies every
+\* stimulus value by 2^sc, exactly), next / next_squared alternating, then current, reset, a fresh window and current.
+\* f64: just below the end of the domain (n x^2 < 2^1022), mean squares above / around f32::MAX (2^128), inside the f32
+\* range, below the smallest f32 subnormal (2^-149), squares at the smallest normal f64, subnormal, the smallest
+\* subnormal (2^-1074 = (2^-537)^2) and vanishing.  f32: the same landmarks of its own range.
+Scales == << << "f64", 508 >>, << "f64", 200 >>, << "f64", 64 >>, << "f64", 40 >>, << "f64", -40 >>, << "f64", -80 >>,
+             << "f64", -300 >>, << "f64", -500 >>, << "f64", -515 >>, << "f64", -535 >>, << "f64", -540 >>,
+             << "f32", 61 >>, << "f32", 30 >>, << "f32", -30 >>, << "f32", -55 >>, << "f32", -62 >>, << "f32", -70 >>,
+             << "f32", -73 >> >>
+ResetSc(nn, f, ch, st, sc) ==
+  [ev |-> "reset", comp |-> "rms", cfg |-> [n |-> nn, fmt |-> f, ch |-> ch, via |-> "direct", store |-> st, src |-> "iter", sc |-> sc]]
+Alt(ks, ch) == [i \in 1..Len(ks) |-> Ev(IF i % 2 = 0 THEN "next" ELSE "next_squared", ks[i], ch)]
+ScaleStim ==
+  UNION { UNION { { LET ch == 1 + ((nn + k0 + si) % 2) IN
+                    << ResetSc(nn, Scales[si][1], ch, Stores[((nn + k0 + si) % 4) + 1], Scales[si][2]) >>
+                      \o Alt(Long(nn, k0), ch) \o << Ev0("current"), Ev0("rms_reset"), Ev0("current") >>
+                      \o Feeds("next", SubSeq(Long(nn, 0 - k0), 1, nn + 1), ch) \o << Ev0("current") >>
+                    : k0 \in {-2, 1} } : si \in 1..Len(Scales) } : nn \in 1..MaxWin }
+Stimuli == BaseStim \cup CloneStim \cup ScaleStim
 WriteStimuli ==
   IF "STIM_OUT" \in DOMAIN IOEnv
     THEN /\ ndJsonSerialize(IOEnv.STIM_OUT, SetToSeq(Stimuli))
-         /\ PrintT(<< "STIMULI", Cardinality(BaseStim), Cardinality(CloneStim) >>)
+         /\ PrintT(<< "STIMULI", Cardinality(BaseStim), Cardinality(CloneStim), Cardinality(ScaleStim) >>)
     ELSE TRUE
 ASSUME WriteStimuli
 =============================================================================
